@@ -210,35 +210,28 @@ Qed.
 
 Variable allow : panic_site -> Prop.
 
-Lemma short_range_safeP a e :
-  allow P_debug_assert \/ (a <= u32_max /\ e <= u32_max) ->
-  safeP allow (short_range a e) (fun r => r = (a, e)).
+Lemma ns_range_checked_safe a e :
+  safe (ns_range_checked a e) (fun r => r = (a, e)).
 Proof.
-  clear Hvalid.
-  intros H. unfold short_range. destruct ((u32_max <? a) || (u32_max <? e)) eqn:E; cbn; auto.
-  destruct H as [H|H]; auto. lia.
+  clear Hvalid. unfold ns_range_checked. destruct (u32_max <? e); cbn; auto.
 Qed.
 
-Definition NsRoom (c : context) : Prop :=
-  2 * len_N (d_ns_tree (c_doc c)) + 1 <= u32_max.
-
-Lemma resolve_namespaces_safe c : Core c -> allow P_debug_assert \/ NsRoom c ->
+Lemma resolve_namespaces_safe c : Core c ->
   safeP allow (resolve_namespaces text c)
         (fun '(r, c') => Core c' /\ RangeOk (c_doc c') r /\
                          c_after_text c' = c_after_text c /\ c_tag_name c' = c_tag_name c).
 Proof.
   clear Hvalid.
-  intros Hc Hroom. unfold resolve_namespaces. cbv zeta.
+  intros Hc. unfold resolve_namespaces. cbv zeta.
   pose proof (Chain_lt _ _ _ (core_chain c Hc)) as Hp.
   destruct (nth_N_some _ _ Hp) as [pnd Epnd]. rewrite Epnd. cbn [bind].
   pose proof (core_ns_start c Hc) as Hns. pose proof (core_doc c Hc) as Hd.
   assert (Hroot : safeP allow
-            (let! r := short_range (c_ns_start_idx c) (len_N (d_ns_tree (c_doc c))) in Ok (r, c))
+            (let! r := ns_range_checked (c_ns_start_idx c) (len_N (d_ns_tree (c_doc c))) in Ok (r, c))
             (fun '(r, c') => Core c' /\ RangeOk (c_doc c') r /\
                          c_after_text c' = c_after_text c /\ c_tag_name c' = c_tag_name c)).
-  { eapply safeP_bind; [apply short_range_safeP|].
-    - destruct Hroom as [H|H]; auto. right. unfold NsRoom in H. lia.
-    - intros r ->. cbn. split; [exact Hc|]. split; [unfold RangeOk; cbn; lia|auto]. }
+  { eapply safeP_bind; [apply safe_safeP, ns_range_checked_safe|].
+    intros r ->. cbn. split; [exact Hc|]. split; [unfold RangeOk; cbn; lia|auto]. }
   destruct (nd_kind pnd) as [|nsi loc at_r [pa pe]| | |] eqn:Ek; try exact Hroot.
   destruct (c_ns_start_idx c =? len_N (d_ns_tree (c_doc c))) eqn:Es.
   { cbn. split; auto. split; auto.
@@ -250,9 +243,8 @@ Proof.
     apply N_range_lt. rewrite N2Nat.id. lia. }
   intros d' (R & S & L1 & L2). cbv beta.
   unfold len_N in L2 at 3. rewrite N_range_len in L2.
-  eapply safeP_bind; [apply short_range_safeP|].
-  - destruct Hroom as [H|H]; auto. right. unfold NsRoom in H. lia.
-  - intros r ->. cbn. split; [apply Core_set_doc; auto|]. split; [|auto].
+  eapply safeP_bind; [apply safe_safeP, ns_range_checked_safe|].
+  intros r ->. cbn. split; [apply Core_set_doc; auto|]. split; [|auto].
     unfold RangeOk; cbn. lia.
 Qed.
 
@@ -318,10 +310,9 @@ Qed.
 
 Lemma process_element_safe e r c : Core c -> c_after_text c = [] ->
   (match e with EClose _ _ => True | _ => InTag c end) ->
-  allow P_debug_assert \/ NsRoom c ->
   safeP allow (process_element text e r c) (fun c' => Core c' /\ c_tag_name c' = c_tag_name c).
 Proof.
-  intros Hc Haf Htag Hroom. unfold process_element.
+  intros Hc Haf Htag. unfold process_element.
   destruct (slice_len (tn_name (c_tag_name c)) =? 0) eqn:Et.
   { destruct e; try (exfalso; apply Htag; lia). apply safe_safeP, err_from_safe; auto. }
   eapply safeP_bind; [apply resolve_namespaces_safe; auto|].
